@@ -188,3 +188,24 @@ _ADDED7 = {
 }
 for _pid, _t in _ADDED7.items():
     CLAIMS[_pid]["text"] += " Round 7 and third hunt: " + _t
+
+_ADDED8 = {
+    "C01": "arrays are Ok() only after looking at every element (R-ARRAYOK).",
+    "C03": "read/write accessor pairs mirror each other for the write path too (R-MIRROR); EnumView's checks and writes use one conversion of the value, evaluated for every underlying and block type (R-CPPRANGE).",
+    "C04": "undefined behaviour while folding the runtime's constants and masks (R-CPPRANGE ub_only); R-ARRAYOK; no structure always contains itself (R-SELFCONTAIN); copies take the source's size (R-COPY).",
+    "C05": "the constant-condition branch of ?: is selected by the condition's value (R-CHOICECONST); for $upper_bound/$lower_bound the computed type precedes folding (R-CONSTAGREE).",
+    "C06": "the enum writer prints the numeric value in the enum's underlying type (R-ENUMTEXT writer clause).",
+    "C07": "C++11 constexpr bodies (R-CXX11CONSTEXPR); namespaces of structures spelled in full (R-QUALNS); field readers complete (R-FIELDREADER).",
+    "C10": "token regexes carry no compile flags and the rendered token table equals the tokenizer's patterns (R-TOKTABLE).",
+    "C11": "rebuilt blocks indent all their parts (R-FMTPARTS).",
+    "C12": "definitions are entered into their scope unconditionally (R-SCOPEFILL).",
+    "C13": "diagnostics about objects of another module carry that module's file (R-FOREIGNFILE); integer externals (R-EXTINT).",
+    "C14": "attribute admission is one lookup of (name, is_default) (R-ATTRKEY).",
+    "C15": "accumulation in the alias helper (R-EDGEACC restart clause); alias -> member edges for anonymous bits (R-ALIASEDGE).",
+    "C16": "R-EXTINT, R-FIELDREADER.",
+    "C18": "enum fields of a re-read IR are enum members and no identity tests on them (R-ENUMCONV).",
+    "C19": "EnumView::CouldWriteValue evaluated conjunct by conjunct for every (underlying type, block type) (R-CPPRANGE enum part).",
+    "C20": "R-COPY size-of-source; R-SELFCONTAIN.",
+}
+for _pid, _t in _ADDED8.items():
+    CLAIMS[_pid]["text"] += " Round 8 and fourth hunt: " + _t
